@@ -20,6 +20,8 @@ pub enum Step {
     Disconnect(u8),
     /// look up every probe address (fills the decision cache)
     Probe,
+    /// an address is learned from a peer (payload with that source arrived from it)
+    Learn(u8, u8),
     Tick(u32),
 }
 
@@ -54,6 +56,7 @@ pub fn run_case(ctx: &Ctx, c: &Case) -> Vec<Viol> {
     let cj = || json!({"kind": "announce", "case": c});
     let mut out = vec![];
     let mut shrunk = false;
+    let mut learned: BTreeMap<u8, (u8, i64)> = BTreeMap::new();
     for (si, step) in c.steps.iter().enumerate() {
         match step {
             Step::Announce(p, list) => {
@@ -74,6 +77,7 @@ pub fn run_case(ctx: &Ctx, c: &Case) -> Vec<Viol> {
             Step::Disconnect(p) => {
                 table.remove_claims(peer_addr(*p));
                 last.remove(p);
+                learned.retain(|_, (q, _)| q != p);
                 shrunk = true;
             }
             Step::Probe => {
@@ -95,6 +99,13 @@ pub fn run_case(ctx: &Ctx, c: &Case) -> Vec<Viol> {
                         }
                     }
                 }
+            }
+            Step::Learn(p, a) => {
+                let addr: Address = format!("02:00:00:00:00:{:02x}", a % 4).parse().unwrap();
+                table.cache(addr, peer_addr(*p));
+                learned.insert(a % 4, (*p, now));
+                // a peer that is not connected cannot deliver payload: model it as connected without claims
+                last.entry(*p).or_insert((BTreeSet::new(), now));
             }
             Step::Tick(n) => {
                 for _ in 0..*n {
@@ -149,13 +160,16 @@ pub fn run_case(ctx: &Ctx, c: &Case) -> Vec<Viol> {
                 return out;
             }
         }
-        // cached decisions: each must be backed by a current claim of that peer
+        // cached decisions: each must be backed by a current claim of that peer, or be an address learned from a
+        // peer that is still connected
         for (a, sa, _) in &cache {
             let p = (0..4u8).find(|i| peer_addr(*i) == *sa);
-            let ok = p.and_then(|p| last.get(&p)).map(|(set, _)| set.iter().any(|x| contains(&uni[*x as usize], a))).unwrap_or(false);
+            let is_learned = a.len == 6 && learned.get(&a.data[5]).map(|(q, _)| Some(*q) == p && last.contains_key(q)).unwrap_or(false);
+            let ok = is_learned || p.and_then(|p| last.get(&p)).map(|(set, _)| set.iter().any(|x| contains(&uni[*x as usize], a))).unwrap_or(false);
             if !ok {
+                let sig = if a.len == 6 { "learned-address-points-at-removed-peer" } else { "cached-decision-outlives-claim" };
                 out.push(Viol::new(
-                    "cached-decision-outlives-claim",
+                    sig,
                     format!("after step {} ({:?}): cached decision {} -> {} is backed by no current claim of that peer", si, step, a, sa),
                     cj(),
                 ));
@@ -198,6 +212,7 @@ fn step_strategy() -> impl Strategy<Value = Step> {
         6 => (0u8..3, proptest::collection::vec(0u8..4, 0..5)).prop_map(|(p, l)| Step::Announce(p, l)),
         1 => (0u8..3).prop_map(Step::Disconnect),
         3 => Just(Step::Probe),
+        2 => (0u8..3, 0u8..4).prop_map(|(p, a)| Step::Learn(p, a)),
         2 => prop_oneof![Just(0u32), Just(1), Just(7), Just(8), Just(9), Just(3)].prop_map(Step::Tick),
     ]
 }
@@ -249,6 +264,24 @@ pub fn run(ctx: &Ctx) {
         ctx.report(v);
     });
     ctx.subspace("two peers alternating: 2 announcements each over 71 lists, probes between", total2 / stride, stride == 1);
+    // (2b) learned addresses of peers with and without claims, then removal
+    for with_claims in [false, true] {
+        for probe in [false, true] {
+            let mut steps = vec![];
+            if with_claims {
+                steps.push(Step::Announce(1, vec![0]));
+            }
+            steps.push(Step::Learn(1, 2));
+            if probe {
+                steps.push(Step::Probe);
+            }
+            steps.push(Step::Disconnect(1));
+            steps.push(Step::Probe);
+            let v = run_case(ctx, &Case { claim_timeout: 8, switch_timeout: 5, steps });
+            ctx.report(v);
+        }
+    }
+    ctx.subspace("learned address of a peer with / without claims, then removal of the peer", 4, true);
     // (3) proptest longer histories with time and disconnects
     let n: u32 = ctx.tier.pick(8_000, 200_000);
     ctx.proptest("pt-announce", n, || proptest::collection::vec(step_strategy(), 0..60), |steps| {
